@@ -493,6 +493,11 @@ func (e *vmEnvironment) loadCompositeType(location common.Location, typeID inter
 		return stdlib.FlowEventTypes[typeID]
 	}
 
+	// There is no program for types without a location, e.g. for an unknown built-in type
+	if location == nil {
+		return nil
+	}
+
 	elaboration, err := e.loadDesugaredElaboration(location)
 	if err != nil {
 		// Do not treat a failure to load the program (e.g. a failure of the host) as a missing type
@@ -511,6 +516,11 @@ func (e *vmEnvironment) loadInterfaceType(location common.Location, typeID inter
 	ty := e.allDeclaredTypes[typeID]
 	if ty != nil {
 		return ty.(*sema.InterfaceType)
+	}
+
+	// There is no program for types without a location, e.g. for an unknown built-in type
+	if location == nil {
+		return nil
 	}
 
 	elaboration, err := e.loadDesugaredElaboration(location)
